@@ -333,38 +333,6 @@ struct World {
 }
 
 impl Sys {
-    /// on-disk form of the logical top layer
-    fn top_on_disk(&self, top: &Tree) -> Tree {
-        top.iter()
-            .map(|(p, n)| {
-                (
-                    p.clone(),
-                    match n {
-                        Node::File(b) if self.cfg.is_compressed(p) => Node::File(self.cfg.encode_stored(b)),
-                        other => other.clone(),
-                    },
-                )
-            })
-            .collect()
-    }
-    /// logical form of an on-disk top layer; Err names an undecodable stored file
-    fn top_logical(&self, disk: &Tree) -> Result<Tree, String> {
-        let mut out = Tree::new();
-        for (p, n) in disk {
-            match n {
-                Node::File(b) if self.cfg.is_compressed(p) => match self.cfg.decode_stored(b) {
-                    Ok(d) => {
-                        out.insert(p.clone(), Node::File(d));
-                    }
-                    Err(e) => return Err(format!("stored file {} ({} bytes) is not a valid compressed stream: {}", p, b.len(), e)),
-                },
-                other => {
-                    out.insert(p.clone(), other.clone());
-                }
-            }
-        }
-        Ok(out)
-    }
     fn build_world(&self, top: &Tree) -> Result<World, String> {
         let scratch = Scratch::new(&self.base);
         let mut roots = Vec::new();
@@ -374,7 +342,7 @@ impl Sys {
             roots.push(r);
         }
         let t = scratch.root.join("TOP");
-        materialise(&t, &self.top_on_disk(top));
+        materialise(&t, top);
         roots.push(t);
         let fs = LayeredFilesystem::new(roots.iter().map(|r| r.display().to_string()).collect(), self.cfg.language(), self.cfg.game()).map_err(|e| e.to_string())?;
         Ok(World { _scratch: scratch, roots, fs })
@@ -405,24 +373,26 @@ impl Sys {
             }
         }
     }
-    fn apply_model(&self, top: &mut Tree, op: &Op) -> Result<(), ()> {
-        match op {
-            Op::Write(p, pi, loc) => {
-                let a = self.actual(p, *loc).ok_or(())?;
-                model_write(top, &a, &self.cfg.payloads()[*pi])
-            }
-            Op::CreateDir(p, loc) => {
-                let a = self.actual(p, *loc).ok_or(())?;
-                model_create_dir(top, &a)
-            }
-            Op::WriteArchive(p, loc) => {
-                let a = self.actual(p, *loc).ok_or(())?;
-                let bytes = arch::build(&self.cfg.small_archive(), None).and_then(|x| x.serialize().map_err(|e| e.to_string())).map_err(|_| ())?;
-                model_write(top, &a, &bytes)
-            }
-            Op::WriteTextArchive(p, loc) => {
-                let a = self.actual(p, *loc).ok_or(())?;
-                model_write(top, &a, &self.cfg.text_archive_bytes())
+    /// Model of one call on the on-disk top layer. On success returns, for calls that must
+    /// store a compressed stream, (actual path, payload): the model cannot predict the
+    /// compressor's bytes, so that one file is judged by "decodes to the payload".
+    fn apply_model(&self, top: &mut Tree, op: &Op) -> Result<Option<(String, Vec<u8>)>, ()> {
+        let (p, loc, payload): (&String, bool, Option<Vec<u8>>) = match op {
+            Op::Write(p, pi, loc) => (p, *loc, Some(self.cfg.payloads()[*pi].clone())),
+            Op::CreateDir(p, loc) => (p, *loc, None),
+            Op::WriteArchive(p, loc) => (p, *loc, Some(arch::build(&self.cfg.small_archive(), None).and_then(|x| x.serialize().map_err(|e| e.to_string())).map_err(|_| ())?)),
+            Op::WriteTextArchive(p, loc) => (p, *loc, Some(self.cfg.text_archive_bytes())),
+        };
+        let a = self.actual(p, loc).ok_or(())?;
+        match payload {
+            None => model_create_dir(top, &a).map(|_| None),
+            Some(bytes) => {
+                model_write(top, &a, &bytes)?;
+                if self.cfg.is_compressed(p) {
+                    Ok(Some((norm(&a), bytes)))
+                } else {
+                    Ok(None)
+                }
             }
         }
     }
@@ -430,27 +400,29 @@ impl Sys {
     /// layers as the observers see them: lower layers raw, top layer on-disk form
     fn layers_for(&self, top: &Tree) -> Vec<Tree> {
         let mut v = self.cfg.lowers.clone();
-        v.push(self.top_on_disk(top));
+        v.push(top.clone());
         v
     }
 
     fn observe_c12(&self, w: &World, top: &Tree, out: &mut Vec<(String, String)>) {
         let layers = self.layers_for(top);
         let mut paths: Vec<String> = self.cfg.write_paths();
-        paths.extend(["d".to_string(), "d/e".to_string(), "nope".to_string(), "t/arch.bin".to_string(), format!("t/z{}", self.cfg.sfx()), "d/nope/x".to_string()]);
+        paths.extend(["d".to_string(), "d/e".to_string(), "nope".to_string(), "t/arch.bin".to_string(), format!("t/z{}", self.cfg.sfx()), "d/nope/x".to_string(), format!("e{}", self.cfg.sfx())]);
         for p in &paths {
             for loc in [false, true] {
-                if loc && comps(p).len() < 2 {
-                    continue;
-                }
                 let actual = self.actual(p, loc);
                 // ---- read
                 let expected: Result<Vec<u8>, &str> = match &actual {
                     None => Err("unsupported language"),
                     Some(a) => {
+                        // a path with a trailing slash can only name a directory
+                        let dir_only = a.ends_with('/');
                         let a = norm(a);
                         let mut r: Result<Vec<u8>, &str> = Err("not found");
                         for l in layers.iter().rev() {
+                            if dir_only {
+                                break;
+                            }
                             if let Some(Node::File(b)) = l.get(&a) {
                                 r = if self.cfg.is_compressed(p) {
                                     self.cfg.decode_stored(b).map_err(|_| "undecodable")
@@ -476,9 +448,11 @@ impl Sys {
                 let (mut ex, mut fex, mut dex) = (false, false, false);
                 let mut resolved: Option<PathBuf> = None;
                 if let Some(a) = &actual {
+                    let dir_only = a.ends_with('/');
                     let a = norm(a);
                     for (i, l) in layers.iter().enumerate().rev() {
                         match l.get(&a) {
+                            Some(Node::File(_)) if dir_only => {}
                             Some(Node::File(_)) => {
                                 ex = true;
                                 fex = true;
@@ -668,6 +642,10 @@ impl System for Sys {
                 }
             }
         }
+        // a single-component path with the compressed suffix, localized (the localizer treats it
+        // as a directory: prefix games store "e.cmp/d_", directory games cannot store it at all)
+        v.push(Op::Write(format!("e{}", self.cfg.sfx()), 2, true));
+        v.push(Op::Write(format!("e{}", self.cfg.sfx()), 1, false));
         v.push(Op::CreateDir("a".into(), false));
         v.push(Op::CreateDir("d/e".into(), false));
         v.push(Op::CreateDir("d/e".into(), true));
@@ -687,7 +665,7 @@ impl System for Sys {
         };
         let mut wit = 0u64;
         // witnesses
-        if let (Ok(()), Op::Write(p, _, loc)) = (&want, op) {
+        if let (Ok(_), Op::Write(p, _, loc)) = (&want, op) {
             if let Some(a) = self.actual(p, *loc) {
                 let a = norm(&a);
                 if self.cfg.lowers.iter().any(|l| matches!(l.get(&a), Some(Node::File(_)))) {
@@ -720,17 +698,39 @@ impl System for Sys {
             }
         }
         match (&want, &res) {
-            (Ok(()), Err(e)) => return fail(format!("{}:rejected", kind), format!("{:?} failed ({}) but the model accepts it (top layer {})", op, e, tree_json(&s.top))),
+            (Ok(_), Err(e)) => return fail(format!("{}:rejected", kind), format!("{:?} failed ({}) but the model accepts it (top layer {})", op, e, tree_json(&s.top))),
             (Err(()), Ok(())) => return fail(format!("{}:accepted", kind), format!("{:?} succeeded but must fail (top layer {})", op, tree_json(&s.top))),
             _ => {}
         }
-        let top_disk = &snaps[snaps.len() - 1];
-        let logical = match self.top_logical(top_disk) {
-            Ok(l) => l,
-            Err(e) => return fail(format!("{}:stored-stream-invalid", kind), format!("after {:?}: {}", op, e)),
+        let top_disk = snaps[snaps.len() - 1].clone();
+        let compressed_at = match want {
+            Err(()) => {
+                // A rejected call must not touch any file; directories created on the way (the
+                // parent of an unwritable path) are not constrained by the statement.
+                let files = |t: &Tree| t.iter().filter(|(_, n)| matches!(n, Node::File(_))).map(|(k, v)| (k.clone(), v.clone())).collect::<Tree>();
+                let dirs_kept = s.top.iter().all(|(k, n)| *n != Node::Dir || top_disk.get(k) == Some(&Node::Dir));
+                if files(&top_disk) != files(&s.top) || !dirs_kept {
+                    return fail(format!("{}:failed-call-changed-files", kind), format!("{:?} failed and changed the top layer: {} — before {}", op, tree_json(&top_disk), tree_json(&s.top)));
+                }
+                return Step::Next { state: St { top: top_disk }, witnesses: wit };
+            }
+            Ok(c) => c,
         };
-        if logical != model {
-            return fail(format!("{}:top-layer", kind), format!("after {:?} the top layer holds {} — expected {}", op, tree_json(&logical), tree_json(&model)));
+        if let Some((path, payload)) = compressed_at {
+            // the stored file must be a valid compressed stream that expands to the payload
+            match top_disk.get(&path) {
+                Some(Node::File(stored)) => match self.cfg.decode_stored(stored) {
+                    Ok(d) if d == payload => {
+                        model.insert(path.clone(), Node::File(stored.clone()));
+                    }
+                    Ok(d) => return fail(format!("{}:stored-stream-wrong-data", kind), format!("after {:?} the stored file {} expands to {} bytes that differ from the {} written", op, path, d.len(), payload.len())),
+                    Err(e) => return fail(format!("{}:stored-stream-invalid", kind), format!("after {:?} the stored file {} ({} bytes: {}) is not a valid compressed stream: {}", op, path, stored.len(), util::hex(&stored[..stored.len().min(16)]), e)),
+                },
+                _ => return fail(format!("{}:top-layer", kind), format!("after {:?} there is no file at {} in the top layer: {}", op, path, tree_json(&top_disk))),
+            }
+        }
+        if top_disk != model {
+            return fail(format!("{}:top-layer", kind), format!("after {:?} the top layer holds {} — expected {}", op, tree_json(&top_disk), tree_json(&model)));
         }
         Step::Next { state: St { top: model }, witnesses: wit }
     }
@@ -745,7 +745,7 @@ impl System for Sys {
             // observers must not change anything
             let snaps: Vec<Tree> = w.roots.iter().map(|r| snapshot(r)).collect();
             let mut want = self.cfg.lowers.clone();
-            want.push(self.top_on_disk(&s.top));
+            want.push(s.top.clone());
             if snaps != want {
                 out.push(("observer-modified-disk".into(), "a read-only query changed the directories".into()));
             }
@@ -924,7 +924,7 @@ pub fn explore(ctx: &Ctx, which: Which) -> Outcome {
     cov.extra.insert("witnesses".into(), json!(wit_total));
     o.coverage = cov;
     o.assumptions = vec![
-        "paths are relative with plain components; localized access is exercised on paths with at least two components (a single component is treated as a directory by the localizer)".into(),
+        "paths are relative with plain components; a failed write/create_dir may leave directories behind in the top layer (only files are required to be untouched)".into(),
         "full-depth search for FE10/German and FE14/EnglishNA, a shallow pass for all 5 supported games × 8 languages; FE11/FE12 and the empty layer list are checked at the constructor".into(),
         "scratch directories live on /dev/shm (no symlinks in the canonical paths)".into(),
     ];
